@@ -60,7 +60,7 @@ COND_MAX = 1e3
 def plan(tier):
     if tier == 'thorough':
         return dict(shards=16, cases=5000, timeout=1800, budget_s=600)
-    return dict(shards=8, cases=520, timeout=600, budget_s=70)
+    return dict(shards=8, cases=400, timeout=600, budget_s=70)
 
 
 def selftest():
@@ -134,7 +134,9 @@ def _locs(rng, cls, n):
 def _gen(case):
     from astropy.stats import SigmaClip
     rng, cls = case.rng, case.cls
-    if cls == 'tiny' and rng.random() < 0.5:
+    if cls != 'tiny' and rng.random() < 0.1:
+        shape = G.gen_elongated_shape(rng)          # axis (iv): strongly non-square frames, any class
+    elif cls == 'tiny' and rng.random() < 0.5:
         shape = [(1, 1), (1, int(rng.integers(2, 9))), (int(rng.integers(2, 9)), 1), (2, 2), (2, 3), (3, 3)][
             int(rng.integers(0, 6))]
     elif rng.random() < 0.1:
@@ -145,6 +147,8 @@ def _gen(case):
         style = str(rng.choice(['noise', 'ramp']))
     else:
         style = str(rng.choice(['blob', 'blob', 'blob', 'ramp', 'noise', 'ints']))
+        if rng.random() < 0.04:
+            style = 'const'                      # axis (vi): constant image (zero spread, MAD = 0 branches)
     data = G.gen_image(rng, shape, style)
     if cls == 'naninf' or rng.random() < 0.1:
         data = G.sprinkle_nonfinite(rng, data, frac=float(rng.choice([0.03, 0.1, 0.3])))
@@ -195,14 +199,31 @@ def _gen(case):
             data = data.copy()
             data[r] = data[r] + rng.choice([-1.0, 1.0], size=int(r.sum())) * rng.uniform(30, 300, size=int(r.sum()))
 
+    # axis (i): overall magnitude of the data (local_bkg follows the data) and, independently, of the error map
+    mag, maglab = (1.0, 'non_float64_dtype') if data.dtype != np.float64 else G.gen_magnitude(rng)
+    emag, emaglab = G.gen_magnitude(rng) if error is not None else (1.0, 'plain')
+    if mag != 1.0:
+        data = data * mag
+    if error is not None and emag != 1.0:
+        error = error * emag
     lb = None
+    lbform = 'none'
     if cls == 'localbkg' or rng.random() < 0.35:
         if rng.random() < 0.5 or npos == 1 and scalar:
-            lb = float(rng.uniform(-2.0, 6.0))
+            lb = float(rng.uniform(-2.0, 6.0)) * mag
+            lbform = str(rng.choice(['float', 'float', 'np.float64', 'array0d', 'list1']))
+            if lbform == 'np.float64':
+                lb = np.float64(lb)
+            elif lbform == 'array0d':
+                lb = np.array(lb)
+            elif lbform == 'list1':
+                lb = [lb]
         else:
-            lb = rng.uniform(-2.0, 6.0, npos)
-            if rng.random() < 0.2:
-                lb = list(map(float, lb))
+            lb = rng.uniform(-2.0, 6.0, npos) * mag
+            lbform = 'ndarray'
+            if rng.random() < 0.3:
+                lb = list(map(float, lb)) if rng.random() < 0.5 else tuple(map(float, lb))
+                lbform = type(lb).__name__
     if cls == 'cancel':
         # realistic degenerate use: the local background equals the mean of the aperture's own pixels, so the
         # background-subtracted values cancel (sum ~ 0 at rounding level, exactly 0, or tiny)
@@ -214,10 +235,12 @@ def _gen(case):
             mean = float(np.mean(o['v'])) if len(o['v']) else 0.0
             lb.append(mean * (1.0 + float(rng.choice([0.0, 0.0, 1e-12, -1e-9, 1e-6]))))
         lb = lb[0] if (npos == 1 and rng.random() < 0.5) else np.array(lb)
+        lbform = 'cancel'
     unit = 'Jy' if (cls == 'units' or rng.random() < 0.12) else None
     return dict(shape=shape, style=style, data=data, error=error, mask=mask, kind=kind, params=params, ext=ext,
                 positions=positions, locs=locs, scalar=scalar, sum_method=sum_method, subpixels=subpixels,
-                clip=clip, lb=lb, unit=unit, SigmaClip=SigmaClip)
+                clip=clip, lb=lb, unit=unit, SigmaClip=SigmaClip, mag=mag, maglab=maglab, emag=emag, emaglab=emaglab,
+                lbform=lbform, layout={k: str(rng.choice(G.LAYOUTS)) for k in ('data', 'error', 'mask')})
 
 
 # ----------------------------------------------------------------------
@@ -343,9 +366,10 @@ def _make_stats(g, ap, data, error, mask, wcs=None, lb='from_g', form='array'):
     if unit is not None and lb is not None:
         lb = np.asarray(lb, float) * unit if not np.isscalar(lb) else lb * unit
     sc = None if g['clip'] is None else g['SigmaClip'](**g['clip'])
-    d = data.copy()
-    e = None if error is None else error.copy()
-    m = None if mask is None else mask.copy()
+    # fresh copies in the case's memory layout (axis iii)
+    d = G.relayout(data, g['layout']['data'])
+    e = G.relayout(error, g['layout']['error'])
+    m = G.relayout(mask, g['layout']['mask'])
     kw = dict(sigma_clip=sc, sum_method=g['sum_method'], subpixels=g['subpixels'], local_bkg=lb)
     if form == 'nddata':
         nd = NDData(d, uncertainty=None if e is None else StdDevUncertainty(e), mask=m, unit=unit, wcs=wcs)
@@ -380,15 +404,43 @@ def _run_case(case):
                        params={k: round(float(v), 6) for k, v in params.items()},
                        positions=[[round(float(x), 6), round(float(y), 6)] for x, y in g['positions']],
                        locs=g['locs'], scalar=g['scalar'], sum_method=g['sum_method'], subpixels=g['subpixels'],
-                       clip=g['clip'], local_bkg=None if g['lb'] is None else np.round(lbk, 6).tolist(),
-                       unit=g['unit'], error=error is not None, mask=None if mask is None else int(mask.sum()))
+                       clip=g['clip'], local_bkg=None if g['lb'] is None else [float(x) for x in lbk],
+                       unit=g['unit'], error=error is not None, mask=None if mask is None else int(mask.sum()),
+                       mag=g['mag'], emag=g['emag'], layout=g['layout'], local_bkg_form=g['lbform'])
     case.digest = core.arr_digest(data, error, mask, np.array([params[k] for k in sorted(params)], float),
                                   np.asarray(g['positions'], float), lbk) + core.digest(
         [cls, kind, g['sum_method'], g['subpixels'], g['clip'], g['unit'], g['scalar']])[:8]
     base = {'cls': cls, 'kind': kind, 'sum_method': g['sum_method'], 'clip': g['clip'] is not None,
             'local_bkg': g['lb'] is not None}
 
-    ap = G.build_pixel(kind, positions, params)
+    # generic axes: counters + call form of every aperture argument (half of the non-sky cases plain)
+    case.note('magnitude_data:' + g['maglab'])
+    if error is not None:
+        case.note('magnitude_error:' + g['emaglab'])
+    for name, arr in (('data', data), ('error', error), ('mask', mask)):
+        if arr is not None:
+            case.note('layout:' + g['layout'][name])
+    if abs(g['shape'][0] - g['shape'][1]) >= 2:
+        case.note('shape:nonsquare')
+    case.note('form_local_bkg:' + g['lbform'])
+    labels, posform, pos_arg, ctor = {}, 'as_is', positions, params
+    if cls != 'sky' and rng.random() < 0.5:
+        ctor, canon, labels = G.apply_forms(rng, kind, params)
+        pos_arg, posform = G.positions_form(rng, positions, g['scalar'])
+        for k, lab in labels.items():
+            case.note(('form_theta:' if k == 'theta' else 'form_size:') + lab)
+        case.note('form_positions:' + posform)
+        params = canon
+    ap = G.build_pixel(kind, pos_arg, ctor)
+    if 'theta' in params:
+        import astropy.units as _u
+        held = float(ap.theta.to_value(_u.rad))
+        case.check(abs(held - params['theta']) <= 1e-14 * max(1.0, abs(params['theta'])),
+                   'theta_held_equals_given_angle', dict(base, form=labels.get('theta', 'float')), held=held,
+                   given=params['theta'])
+        params = dict(params, theta=held)
+    g['params'] = params
+    case.params.update(params={k: round(float(v), 6) for k, v in params.items()}, forms=labels, posform=posform)
     wcs = sky = None
     form = 'array'
     if cls == 'sky' or (cls == 'nddata' and rng.random() < 0.4):
@@ -396,7 +448,11 @@ def _run_case(case):
     if cls == 'sky':
         pos = np.atleast_2d(np.asarray(positions, float))
         sc = wcs.pixel_to_world(pos[:, 0], pos[:, 1])
-        sky = G.build_sky(kind, sc[0] if g['scalar'] else sc, params, scale, float(rng.uniform(-3, 3)))
+        slabels = {}
+        sky = G.build_sky(kind, sc[0] if g['scalar'] else sc, params, scale, float(rng.uniform(-3, 3)),
+                          rng=rng if rng.random() < 0.6 else None, labels=slabels)
+        for k, lab in slabels.items():
+            case.note(('form_sky_theta:' if k == 'theta' else 'form_sky_length:') + lab)
         ap = sky.to_pixel(wcs)
         form = 'sky'
     elif cls == 'nddata':
@@ -451,6 +507,8 @@ def _run_case(case):
     _rel_table(case, st, obs, base)
     if npos > 1 or (not g['scalar'] and rng.random() < 0.3):
         _rel_singles(case, rng, g, ap, data, error, mask, wcs, lbk, obs, base)
+    if labels and rng.random() < 0.5:
+        _rel_float_radian(case, g, ap, data, error, mask, lbk, obs, labels, base)
     _documented_rejections(case, rng, g, ap, data, base)
     if g['scalar'] and form != 'sky' and rng.random() < 0.25:
         _rel_region(case, g, data, error, mask, obs, base)
@@ -825,6 +883,21 @@ def _rel_singles(case, rng, g, ap, data, error, mask, wcs, lbk, obs, base):
             case.close(obs[name][0][k], v1[0], 'many_positions_equal_singles', mech=dict(base, prop=name))
 
 
+def _rel_float_radian(case, g, ap, data, error, mask, lbk, obs, labels, base):
+    """the aperture as given (theta as Quantity / Angle in deg, arcmin, hourangle, numpy scalars, ints ...)
+    == the aperture built from plain floats with theta in radians"""
+    held = {k: float(getattr(ap, k).value if hasattr(getattr(ap, k), 'unit') else getattr(ap, k))
+            for k in ap._params if k != 'positions'}
+    if 'theta' in held:
+        held['theta'] = float(g['params']['theta'])
+    ref = G.build_pixel(g['kind'], np.array(ap.positions, float), held)
+    s2 = _make_stats(g, ref, data, error, mask)
+    for name in REL_PROPS:
+        v2, _ = _get(s2, name)
+        case.close(obs[name][0], v2, 'given_form_equals_float_radian_aperture',
+                   mech=dict(base, prop=name, form='theta:' + labels.get('theta', 'float')))
+
+
 def _documented_rejections(case, rng, g, ap, data, base):
     """argument errors the class docstring promises"""
     import astropy.units as u
@@ -869,9 +942,15 @@ def _rel_region(case, g, data, error, mask, obs, base):
     else:
         return
     s2 = _make_stats(g, reg, data, error, mask)
+    with np.errstate(all='ignore'):
+        fin = np.asarray(data, float)[np.isfinite(np.asarray(data, float))]
+        dscale = float(np.max(np.abs(fin))) if fin.size else 1.0
+        escale = 1.0 if error is None else float(np.nanmax(np.abs(np.asarray(error, float))))
     for name in ('sum', 'sum_err', 'sum_aper_area', 'mean', 'median', 'std', 'centroid', 'covariance', 'orientation'):
         v2, _ = _get(s2, name)
-        case.close(v2, obs[name][0], 'region_equals_aperture', rtol=1e-12, atol=1e-12, mech=dict(base, prop=name))
+        atol = 1e-12 * (dscale * 1e3 if name in ('sum', 'mean', 'median', 'std') else
+                        escale * 1e2 if name == 'sum_err' else 1.0)
+        case.close(v2, obs[name][0], 'region_equals_aperture', rtol=1e-12, atol=atol, mech=dict(base, prop=name))
 
 
 def _rel_other_form(case, g, ap, data, error, mask, wcs, obs, what, base, st=None):
